@@ -818,8 +818,16 @@ func processStructProvider(fset *token.FileSet, info *types.Info, call *ast.Call
 			fmt.Errorf(firstArgReqFormat, types.TypeString(structPtr, nil)))
 	}
 
-	stExpr := call.Args[0].(*ast.CallExpr)
+	stExpr, ok := call.Args[0].(*ast.CallExpr)
+	if !ok || len(stExpr.Args) != 1 {
+		return nil, notePosition(fset.Position(call.Pos()),
+			fmt.Errorf(firstArgReqFormat, types.TypeString(structType, nil)))
+	}
 	typeName := qualifiedIdentObject(info, stExpr.Args[0]) // should be either an identifier or selector
+	if typeName == nil || typeName.Pkg() == nil {
+		return nil, notePosition(fset.Position(call.Pos()),
+			fmt.Errorf(firstArgReqFormat, types.TypeString(structType, nil)))
+	}
 	provider := &Provider{
 		Pkg:      typeName.Pkg(),
 		Name:     typeName.Name(),
